@@ -76,6 +76,7 @@ func RecvQueued
   loop 0 invariant len(buffer) <= max(maxValues, 0) && len(buffer) <= old(chlen(ch)) && (cap(buffer) == 0 || fresh(buffer))
   loop 0 invariant chhead(ch) == old(chhead(ch)) + len(buffer) && chtail(ch) == old(chtail(ch)) && chclosed(ch) == old(chclosed(ch))
   loop 0 invariant forall i :: 0 <= i && i < len(buffer) ==> buffer[i] == old(chat(ch, chhead(ch) + i))
+  loop 0 decreases maxValues - len(buffer)
 
 func RecvQueuedFull
   property C19
@@ -89,6 +90,7 @@ func RecvQueuedFull
   loop 0 invariant chhead(ch) == old(chhead(ch)) + index && chtail(ch) == old(chtail(ch)) && chclosed(ch) == old(chclosed(ch))
   loop 0 invariant forall i :: 0 <= i && i < index ==> buf[i] == old(chat(ch, chhead(ch) + i))
   loop 0 invariant forall i :: index <= i && i < len(buf) ==> buf[i] == old(buf[i])
+  loop 0 decreases len(buf) - index
 
 // ---------------------------------------------------------------- C10: PubSub
 // Lock discipline (see /verif/DESIGN.md 6.4, engine/locks.go): o.mutex guards o.subs and every backing array that
